@@ -49,8 +49,16 @@ for i in range(ncases):
         ws[rng.randrange(k)] = 0.0
     if any(w == 0 for w in ws):
         stats["zero_weight"] += 1
-    weights = np.array([float(w) for w in ws])
     rho = 0.0 if rng.random() < 0.06 else pool.density()
+    sc_kind = rng.random()
+    if sc_kind < 0.08:        # weights on a tiny absolute scale (moles of a trace sample)
+        kscale = float("%.3g" % 10 ** rng.uniform(-14, -6))
+        ws = [float(w) * kscale for w in ws]
+        stats["tiny_weights"] = stats.get("tiny_weights", 0) + 1
+    elif sc_kind < 0.16 and rho:      # a very dilute gas
+        rho = float("%.3g" % 10 ** rng.uniform(-15, -6))
+        stats["tiny_density"] = stats.get("tiny_density", 0) + 1
+    weights = np.array([float(w) for w in ws])
     if rho == 0:
         stats["zero_density"] += 1
     # wavelength argument
@@ -114,5 +122,30 @@ for i in range(ncases):
             if not ok:
                 fail("C17:composite-vs-direct:" + NAMES[j], "%s: composite %s = %r, direct neutron_sld of the sum formula gives %r"
                      % (txt, NAMES[j], a, b), call=txt, output=NAMES[j])
+
+    # ---- the calculator is a function of its arguments: calling it again, with the same array object changed in
+    # place in between, gives what a fresh calculator gives, and the call leaves the array alone
+    if i % 4 == 0 and k >= 1:
+        stats["repeated_calls"] = stats.get("repeated_calls", 0) + 1
+        calc = attempt(lambda: nsf.neutron_composite_sld(mats, **kw))
+        w = weights.copy()
+        first = attempt(lambda: calc(w, density=rho))
+        if not isinstance(first, BaseException) and not np.array_equal(w, weights):
+            fail("C17:argument-modified", "%s: the weights array was changed by the call: %r" % (txt, w.tolist()), call=txt)
+        w[0] += rng.choice([2.5, 1.0, 0.25])
+        w[-1] *= rng.choice([0.5, 0.0, 3.0])
+        w2 = w.copy()
+        again = attempt(lambda: calc(w, density=rho))
+        fresh = attempt(lambda: nsf.neutron_composite_sld(mats, **kw)(w2, density=rho))
+        t3 = "%s; then the same array changed in place to %r and the calculator called again" % (txt, w2.tolist())
+        if isinstance(again, BaseException) or isinstance(fresh, BaseException):
+            if type(again) is not type(fresh):
+                fail("C17:repeated-call", "%s: %r, a fresh calculator gives %r" % (t3, again, fresh), call=t3)
+        else:
+            for j in range(3):
+                a, b = np.ravel(np.asarray(again[j], dtype=float)), np.ravel(np.asarray(fresh[j], dtype=float))
+                if a.shape != b.shape or not np.allclose(a, b, rtol=1e-12, atol=0):
+                    fail("C17:repeated-call", "%s: %s = %r, a fresh calculator gives %r" % (t3, NAMES[j], a.tolist(), b.tolist()), call=t3)
+                    break
 
 json.dump(dict(cases=cases, meta=meta, direct_fails=fails, stats=stats), sys.stdout)
